@@ -422,3 +422,59 @@ def pdu_classes(p):
         if p.get("meta") is not None:
             out.append("segment metadata")
     return out
+
+
+# ---- short call histories around one PDU (aliasing / shared-state detectors) ---------------------------------
+
+
+def other_conf(c):
+    """A header configuration that differs from ``c`` in every flag, both widths and all values."""
+    nxt = {1: 2, 2: 4, 4: 8, 8: 1}
+    idw, seqw = nxt[c["idw"]], nxt[c["seqw"]]
+    return {"crc": 1 - c["crc"], "large": 1 - c["large"], "mode": 1 - c["mode"], "dir": 1 - c["dir"], "segctrl": c["segctrl"], "idw": idw, "seqw": seqw,
+            "src": (1 << (8 * idw)) - 2, "dst": 1, "seq": (1 << (8 * seqw)) - 1}
+
+
+def other_pdu(p):
+    """A different, valid PDU (other kind where possible, other header configuration) to decode in between."""
+    oc = other_conf(p["conf"])
+    if p["kind"] == "prompt":
+        return {"kind": "keepalive", "conf": oc, "progress": 0x01020304}
+    return {"kind": "prompt", "conf": oc, "resp": 1}
+
+
+def pdu_histories(p, want: bytes, wo: dict, decode, tag="hist", decode_other=None):
+    """The codec statement along short histories: the caller reuses buffers and configuration objects it owns, other PDUs are
+    decoded in between - none of that may change what an existing PDU object reports or packs.  ``decode`` is the decoder
+    under test (class ``unpack`` or the factory)."""
+    from spacepackets.cfdp import defs as d
+    from spacepackets.util import ByteFieldGenerator
+
+    from .core import eq, pack_fresh, scribble
+
+    devs = []
+    kind = p["kind"]
+    c = p["conf"]
+    # caller goes on using the configuration object it passed in
+    conf_obj = build_conf(c)
+    x = build_pdu(p, conf_obj)
+    pack_fresh(devs, f"{tag}.pack_returns_fresh_buffer", x.pack, want)
+    conf_obj.crc_flag = d.CrcFlag(1 - c["crc"])
+    conf_obj.file_flag = d.LargeFileFlag(1 - c["large"])
+    conf_obj.trans_mode = d.TransmissionMode(1 - c["mode"])
+    conf_obj.direction = d.Direction(1 - R.direction_of(p))
+    conf_obj.transaction_seq_num = ByteFieldGenerator.from_int(c["seqw"], (c["seq"] + 1) % (1 << (8 * c["seqw"])))
+    eq(devs, f"{tag}.pack_after_caller_changed_its_config", bytes(x.pack()), want)
+    eq(devs, f"{tag}.packet_len_after_caller_changed_its_config", x.packet_len, len(want))
+    # decoded out of a caller-owned buffer that is reused; another PDU with another configuration decoded in between
+    buf = bytearray(want)
+    y = decode(buf)
+    scribble(buf)
+    eq(devs, f"{tag}.decoded.fields_after_caller_reused_buffer", obs_pdu(y, kind), wo)
+    q = other_pdu(p)
+    z = (decode_other or pdu_class(q["kind"]).unpack)(ref_pdu(q))
+    eq(devs, f"{tag}.decoded.other_pdu_fields", obs_pdu(z, q["kind"]), want_pdu_obs(q, ref_pdu(q)))
+    eq(devs, f"{tag}.decoded.fields_after_another_pdu_was_decoded", obs_pdu(y, kind), wo)
+    eq(devs, f"{tag}.decoded.repack_after_another_pdu_was_decoded", bytes(y.pack()), want)
+    eq(devs, f"{tag}.constructed.pack_after_another_pdu_was_decoded", bytes(x.pack()), want)
+    return devs
